@@ -20,6 +20,7 @@ from .engine import Res
 NoneV = Val.NoneV
 LVK = z3.Function("lvk", SeqV, Val)
 UNLVK = z3.Function("unlvk", Val, SeqV)
+PREFK = z3.Function("prefkeys", SeqV, z3.ArraySort(Val, z3.BoolSort()))
 
 PYR_DECLS = ("field", "pmap_field", "pset_field", "pvector_field")
 
